@@ -98,6 +98,12 @@ F.append(dict(id='F41', property='C16', status='open', clause_kind='excel_overla
               text='Excel export fails (OverlappingRange) for a valid solution in which a cumulative worker processes two tasks at overlapping times: '
                    'both bars are merged ranges of the same row [F41]'))
 
+F.append(dict(id='F46', property='C16', status='open', clause_kind='smt2_symbol_leading_digit',
+              witness=dict(program_pretty=["FixedDurationTask(name='2ndTask', duration=2)", "solver.export_to_smt2(f)", "z3.parse_smt2_file(f)"],
+                           observed='(error "line 3 column 13: invalid function declaration, symbol expected")'),
+              text="SMT-LIB export: z3's printer writes a constant whose name starts with a digit (task '2ndTask' -> 2ndTask_start) unquoted, "
+                   "the exported file does not parse; names with spaces or '#' are quoted correctly [F46]"))
+
 F.append(dict(id='F27', property='C14', status='open', clause_kind='adversarial_names',
               witness=dict(program_pretty=["tasks 'T', 'W_busy_T'; worker 'W' required by 'T'  (two roles share the z3 constant W_busy_T_start)",
                                            "a plain worker named 'X_CumulativeWorker_1' is reported as resource 'X'"],
@@ -145,6 +151,7 @@ fixed('F12', 'C05', 'fe2de03', 'an optional task with work_amount > 0 and a requ
 fixed('F09', 'C05', '93ef46e', 'WorkLoad(W, {(3,6): 5}, max) rejected an 8-long task at 1 whose load in the window is 3: the three overlap cases that match a covering interval ask for three different values')
 fixed('F29', 'C05', '322c6d3', 'TasksDontOverlap rejected two zero-duration tasks at the same instant (Xor of the two orders)')
 fixed('F31', 'C05', '30d6fcd', 'UnorderedTaskGroup / OrderedTaskGroup with a time window could not contain an optional task left unscheduled (start >= group start asserted for its negative date)')
+fixed('F45', 'C05', '2b47e45', "ResourcePeriodicallyUnavailable / ResourcePeriodicallyInterrupted with the default start=0 folded the parked (negative, zero-length) busy interval of an unselected alternative worker into the period: a task with two alternative workers, both unavailable (1,4) every 5, had no solution although T=[0,1) on either worker is valid")
 fixed('F44', 'C15', '66057eb', "logics='QF_LIA' (any logic without arrays) on a problem with a NonConcurrentBuffer: z3.SolverFor ignored the array assertions of the buffer level; a task unloading an empty buffer at instant 0 was scheduled (levels [0, 0, 0]) while the default solver answers unsat (corpus/C15/F44.json)")
 fixed('F33', 'C10', '0f12cf3', 'IndicatorTarget / IndicatorBounds with optional=True were enforced even when not applied (assertion appended directly instead of through set_z3_assertions): an optional target that cannot be met made the problem unsatisfiable')
 json.dump({'findings': F}, open('/verif/known_findings.json', 'w'), indent=1)
